@@ -34,9 +34,9 @@ def hist_of(state):
     return streams, hist
 
 
-def scen(run, name, streams, hist, sync, rotate_at=0, truncate=False, recycle=0, maint="", rotate_every=False, remove_after="", nowatch=False, fillers=0, lz4=False):
+def scen(run, name, streams, hist, sync, rotate_at=0, truncate=False, recycle=0, maint="", rotate_every=False, remove_after="", nowatch=False, fillers=0, lz4=False, cap=0):
     return dict(run=run, name=name, sync=sync, streams=streams, hist=hist, rotate_at=rotate_at, truncate=truncate, recycle=recycle, maint=maint,
-                rotate_every=rotate_every, remove_after=remove_after, nowatch=nowatch, fillers=fillers, lz4=lz4)
+                rotate_every=rotate_every, remove_after=remove_after, nowatch=nowatch, fillers=fillers, lz4=lz4, cap=cap)
 
 
 def perform(ctx, binary, scs, tag="c03"):
@@ -106,6 +106,17 @@ def commit_order_stage(ctx):
             k += 1
     if len(scs) < 5:
         raise vlib.Infra("too few histories with several streams (%d)" % len(scs))
+    # a truncation in place while the last lines read are still unacknowledged: notifications that belong to the old content
+    # must not reach the offsets of the restarted file (single stream: D4's condition is excluded)
+    for i in range(8 if thorough else 3):
+        n1 = ctx.rng.randint(1, 3)
+        n2 = ctx.rng.randint(1, 3)
+        hist = [["append", j + 1] for j in range(n1)] + [["truncate_now", 500]] + [["append", n1 + j + 1] for j in range(n2)]
+        if i % 2 == 0:
+            hist += [["save", 0], ["save", 0]]
+        hist += [["open", 0]]
+        scs.append(scen(k, "truncate-last-inflight-%d" % k, ["a"] * (n1 + n2), hist, True, truncate=True))
+        k += 1
     results, recs, shapes = perform(ctx, binary, scs, tag="c02_file")
     out = [dict(x, kind="input_rejects_commit") for x in recs if x["kind"] == "child_died" and x["panic_class"] == "offset_corruption"]
     ctx.extra["file_input_commit_order"] = {"histories": len(scs), "kill_restart_cycles": sum(1 for x in results if x["killed"]),
@@ -273,6 +284,20 @@ def run(ctx):
             hist += [["act", j], ["deliver", j], ["commit", j]]
         hist += [["save", 0], ["kill", 0], ["restart", 0], ["open", 0]]
         scs.append(scen(k, "compressed-%d" % k, ["a"] * n, hist, True, lz4=True))
+        k += 1
+    # truncation noticed by the SAME worker pass that read the old content: the pool is small, so the reader sits in In with the last
+    # old line while nothing is acknowledged; the file is truncated and rewritten shorter; when the gates open the pass reaches
+    # the new end of file (position beyond size) and starts the file over with every old event still unacknowledged
+    for i in range(6 if thorough else 3):
+        cap = ctx.rng.choice([2, 3, 4])
+        n1 = cap + 1
+        n2 = ctx.rng.randint(1, 2)
+        hist = [["append", j + 1] for j in range(n1)] + [["sleep", 400], ["truncate_now", 300]] + [["append", n1 + j + 1] for j in range(n2)]
+        # one old event is let through: its pool slot lets the blocked In return, the pass reaches the (new) end of file and notices
+        # the truncation while the other old events are still parked; they are acknowledged afterwards
+        hist += [["sleep", 200], ["act", 1], ["deliver", 1], ["commit", 1], ["sleep", 400], ["open", 0]]
+        # writes are not watched (file.d's default): the pass itself is what notices the truncation
+        scs.append(scen(k, "truncate-mid-pass-%d" % k, ["a"] * (n1 + n2), hist, True, truncate=True, cap=cap, nowatch=(i % 3 != 2)))
         k += 1
     # graceful stop right after the last observed commit (async persistence: the stop's own save is what puts it on disk),
     # restart: nothing is lost, and the offsets file held every observed commit (CleanStopSavesAll, reported as drift)
